@@ -870,7 +870,7 @@ SER_STUBS = ["regex crate -> stand-in (contract mode)", "std::thread::sleep -> s
 
 
 TAPE_DESC = ["state %d from address %s" % (i, "0x0003" if i % 2 == 0 else "0xBEEF") for i in range(13)] + ["ack StartReset from 0x0003", "unknown frame type 9"]
-SER_PAIRS = [(k, 13) for k in (0, 1, 2, 3, 5, 6, 7, 10, 11, 12, 13, 14, 15)] + [(2, t) for t in list(range(13)) + [14]] + [(1, 8), (12, 10)]
+SER_PAIRS = [(k, 13) for k in (0, 1, 2, 8, 9, 6, 7, 10, 11, 12, 13, 14, 15)] + [(2, t) for t in list(range(13)) + [14]] + [(1, 8), (12, 10)]
 SER_QUICK = {(0, 13), (1, 13), (2, 13), (10, 13), (15, 13), (6, 13), (7, 13), (2, 0), (2, 1), (2, 4), (2, 7), (2, 8), (2, 9), (2, 10), (2, 11), (2, 14), (1, 8), (12, 10)}
 
 
@@ -878,7 +878,13 @@ OPS = ["ReceiveConfig", "ReceivePixels", "ShowLoadedPage", "LoadNextPage", "Star
 
 
 def KIND_NAME(k):
-    return KINDS[k] if k < 8 else "RequestOperation(%s)" % OPS[k - 10]
+    if k < 8:
+        return KINDS[k]
+    if k == 8:
+        return "ReportState(PageLoaded)"
+    if k == 9:
+        return "AckOperation(StartReset)"
+    return "RequestOperation(%s)" % OPS[k - 10]
 
 
 def _ser_plain(prefix, what):
